@@ -11,6 +11,11 @@ Clauses(ev) ==
             ELSE RoundTripViol(ev) \cup Tag(WellFormedViol(ev.F1, ev.unk), "F1") \cup Tag(WellFormedViol(ev.F2, ev.unk), "F2")
                  \cup UNION {Tag(WellFormedViol(ev.G[k], ev.unk), "G") : k \in 1..Len(ev.G)}
       [] ev.e = "file" -> WellFormedViol(ev.f, ev.unk)
+      \* an object as a container (NifObj.tla): what it writes is what a fresh object with the same content writes
+      [] ev.e = "objsave" -> V(ev.built /\ ev.same, "ObjectWritesWhatAFreshObjectWithTheSameContentWrites")
+                             \cup V(ev.sameDefault, "ObjectSavesByDefaultLikeAFreshObjectWithTheSameContent")
+                             \cup V(ev.unk = ev.freshUnk, "ObjectKnowsWhetherItHoldsUnknownBlocks")
+                             \cup WellFormedViol(ev.f, ev.unk)
       [] ev.e = "resave" -> RepeatSaveViol(ev)
       [] ev.e = "unknown" -> IF ev.load # 0 THEN {"RelabelledFileLoads"}
                              ELSE V(ev.hasUnknown, "UnknownDetected") \cup UnknownViol(ev.f, ev.g, {ev.U[k] : k \in 1..Len(ev.U)})
